@@ -7,13 +7,13 @@ Import ListNotations.
 (* fn 1: full bias-point solution: potentials of node_labels (sorted), then v,i,p of every branch in
    listing order *)
 Definition run_solve (n : network CQ) : list Z :=
-  match solve_network CQ n with
+  match solve_network n with
   | Err e => [1%Z; err_code e]
   | Ok s =>
-      0%Z :: elist (fun l => elabel l ++ eres eCQ (get_potential CQ s l)) (node_labels CQ n)
-      ++ elist (fun b => elabel (bid CQ b) ++ eres eCQ (get_voltage CQ s (bid CQ b))
-                         ++ eres eCQ (get_current CQ s (bid CQ b)) ++ eres eCQ (get_power CQ s (bid CQ b)))
-               (branches CQ n)
+      0%Z :: elist (fun l => elabel l ++ eres eCQ (get_potential s l)) (node_labels n)
+      ++ elist (fun b => elabel (bid b) ++ eres eCQ (get_voltage s (bid b))
+                         ++ eres eCQ (get_current s (bid b)) ++ eres eCQ (get_power s (bid b)))
+               (branches n)
   end.
 
 Definition with_parse {A} (p : parser A) (f : A -> list Z) (ts : list Z) : list Z :=
